@@ -27,7 +27,7 @@ ASSUMPTIONS = ['curve points are compared with 10^model_fluxes mJy x nu in erg/c
                'apertures are generated with >= 2 distinct values so that "smallest" and "largest" differ',
                'aperture radii are kept below the largest tabulated aperture by >= 2 % (the 0.999 clamp of interpolate_variable is outside the statement)']
 PROBES = ['mode_interp', 'mode_largest', 'mode_largest+smallest', 'mode_all', 'multi_aperture', 'single_aperture', 'channel_path', 'channel_obj',
-          'consumer_before_plot', 'plot_memmap_off', 'f4_storage', 'fewer_models_than_requested', 'best_fit_last_checked', 'wavelengths_in_other_unit', 'prelude_epoch', 'filters_not_in_wavelength_order', 'aperture_beyond_table_judged', 'finely_sampled_sed', 'every_tabulated_wavelength_fitted', 'earlier_plot_same_apertures_other_wavelengths']
+          'consumer_before_plot', 'plot_memmap_off', 'f4_storage', 'fewer_models_than_requested', 'best_fit_last_checked', 'wavelengths_in_other_unit', 'prelude_epoch', 'filters_not_in_wavelength_order', 'aperture_beyond_table_judged', 'finely_sampled_sed', 'every_tabulated_wavelength_fitted', 'earlier_plot_same_apertures_other_wavelengths', 'fitted_wavelength_outside_the_law_table']
 
 
 def budgets(tier):
@@ -39,6 +39,8 @@ def budgets(tier):
 def generate(rng, tier, idx):
     w = gen_world(rng, fmt=2, n_models=(1, 6), n_wav=(6, 30), n_filters=(1, 1), n_ap=(2, 5), n_par=(1, 1), allow_gz=False, allow_subdir=False)
     w['ext_n'] = 40
+    # the extinction law need not be tabulated over the whole wavelength range of the models (it is zero outside its table)
+    w['ext_range'] = rng.choice([[-2, 4], [-2, 4], [-0.5, 1.5], [-0.4, 0.9]])
     if rng.random() < 0.03:
         # a finely sampled SED: more wavelengths than any plausible internal block size
         w['n_wav'] = rng.choice([1030, 1100, 1500, 2100, 4200])
@@ -152,6 +154,8 @@ def _execute(sc, sim, out):
         out.probe('finely_sampled_sed')
     if nf == W.n_wav:
         out.probe('every_tabulated_wavelength_fitted')
+    if np.any((fw < W.ext_wav[0]) | (fw > W.ext_wav[-1])):
+        out.probe('fitted_wavelength_outside_the_law_table')
     wunit = u.Unit(sc.get('wav_unit', 'micron'))
     if sc.get('wav_unit', 'micron') != 'micron':
         out.probe('wavelengths_in_other_unit')
